@@ -1856,9 +1856,15 @@ class TrajectoryStore:
                 return var[index]
             case (False, False, True):
                 # np.ndarray
-                if all(var[index] == var.get_fill_value()):
+                data = var[index]
+                if len(data) == 0:
+                    # An empty array is what a trajectory without points
+                    # stores for a required field; for an optional field it
+                    # cannot be told apart from a value that was never set.
+                    return data if field.required else None
+                if all(data == var.get_fill_value()):
                     return None
-                return var[index]
+                return data
             case (True, False, False) | (True, False, True):
                 # SpeciesValues[float] | SpeciesValues[np.ndarray]: only
                 # species that were written for this field (the species
